@@ -342,8 +342,8 @@ def _np_sum(interp, args, kwargs):
     (x,) = args
     if isinstance(x, GhostHits):
         return SInt(x.total, 'npint')
-    from pyvc.values import Unsupported
-    raise Unsupported('np.sum of this value')
+    from pyvc.lib import _np_sum_c
+    return _np_sum_c(interp, args, kwargs)
 
 
 def cell(col, k, pred):
